@@ -227,3 +227,14 @@ package client
 //@ requires forall j int :: 0 <= j && j < len(tlc.Clients) ==> tlc.Clients[j] != nil && tlc.Clients[j].logger != nil && tlc.Clients[j].backoff != nil && tlc.Clients[j].httpClient != nil && verifierOK(tlc.Clients[j].Verifier)
 //@ ensures [result-is-the-routed-submission] result0 == sub.res0 && result1 == sub.res1
 //@ at sub assert [precert-entry-type-on-add-pre-chain] sub.ctype == ct.PrecertLogEntryType && sub.path == "/ct/v1/add-pre-chain" && sub.chain == chain && sub.tlc == tlc
+
+// C12 "non-200 / malformed responses on any endpoint produce errors, never partially filled results":
+// the temporal client asks every shard for its roots; one shard failing fails the whole call, whatever
+// the other shards answered and in whatever order the answers arrive. The collection loop therefore
+// never goes on to the next answer after a failed one, and an error is never returned with roots.
+//@ func (*TemporalLogClient).GetAcceptedRoots
+//@ props C12
+//@ arith int
+//@ requires tlc != nil
+//@ loop 2 step-assert [no-answer-is-collected-after-a-failed-shard] r.err == nil
+//@ ensures [an-error-comes-with-no-roots] result1 != nil ==> len(result0) == 0
